@@ -109,6 +109,8 @@ FRAG = {
         'gcmt': '<g><!-- c2 --><text x="%N" y="%N">t</text></g>',
         'unit': '<line x1="%N%" y1="%Ncm" x2="%N" y2="%NPX"/>',
         'text': '<text>hello  world</text>',
+        'vb': '<symbol id="s" viewBox="%N %N %P %P"><rect width="%P"/></symbol>',
+        'poly': '<polygon points="%N,%N %N,%N %N,%N"/>',
     },
     'js': {
         'nullish': 'var alpha = beta == null ? gamma : beta;',
@@ -169,6 +171,12 @@ NUM_RE = {
     'svg': re.compile(r'^[+-]?(\d+\.\d+|\d+|\.\d+)([eE][+-]?\d+)?\Z'),
     'js': re.compile(r'^((0|[1-9]\d*)(\.\d*)?([eE][+-]?\d+)?|\.\d+([eE][+-]?\d+)?)\Z'),
 }
+
+# rows of CliFlags!TypeTable (type, mimetype) in table order; the lang comes from the TLC state
+TYPE_ROWS = [('css', 'text/css'), ('htm', 'text/html'), ('html', 'text/html'), ('js', 'application/javascript'),
+             ('json', 'application/json'), ('mjs', 'application/javascript'), ('rss', 'application/rss+xml'),
+             ('svg', 'image/svg+xml'), ('webmanifest', 'application/manifest+json'), ('xhtml', 'application/xhtml-xml'),
+             ('xml', 'text/xml')]
 
 BOOL_OPTS = ['KeepComments', 'KeepConditionalComments', 'KeepSpecialComments', 'KeepDefaultAttrVals',
              'KeepDocumentTags', 'KeepEndTags', 'KeepQuotes', 'KeepWhitespace', 'KeepCSS2', 'KeepVarNames', 'KeepNumbers']
@@ -295,7 +303,7 @@ def select(ctx, exh, sim):
 HTML_BITS = ['KeepComments', 'KeepSpecialComments', 'KeepDefaultAttrVals', 'KeepDocumentTags', 'KeepEndTags',
              'KeepQuotes', 'KeepWhitespace']          # bit order of spec/OptDesign.tla (Opt)
 DESIGN_BRANCHES = 18
-DESIGN_FAULTS = ['ws', 'ssi', 'doc', 'defaults', 'quotes', 'endtag', 'crosstalk']
+DESIGN_FAULTS = ['ws', 'wsblock', 'ssi', 'doc', 'defaults', 'quotes', 'endtag', 'crosstalk']
 
 
 def render_sym(toks):
@@ -470,8 +478,11 @@ def opts_of(case):
 def ident(c):
     """identity of a witness: language, the non-default options, the exact input"""
     d = default_opts()
-    return dict(lang=c['lang'], mode=c['mode'], o={k: v for k, v in c['o'].items() if v != d[k]},
-                flags=c.get('flags', []), **{'in': c['in']})
+    r = dict(lang=c['lang'], mode=c['mode'], o={k: v for k, v in c['o'].items() if v != d[k]},
+             flags=c.get('flags', []), **{'in': c['in']})
+    if c.get('typeargs'):
+        r.update(typeargs=c['typeargs'], exp=c['exp'])
+    return r
 
 
 def cli_cases(ctx):
@@ -482,6 +493,14 @@ def cli_cases(ctx):
     for st in parse_states(open(dump + '.dump').read()):
         fl = re.findall(r'\[flag \|-> "([^"]+)", val \|-> (\d+)\]', st['fl'])
         op = re.findall(r'\[opt \|-> "([^"]+)", val \|-> (\d+)\]', st['opts'])
+        if int(st['ty']) > 0:                       # a row of the documented type table
+            row = TYPE_ROWS[int(st['ty']) - 1]
+            how = int(st['how'])
+            arg = row[0] if how == 1 else row[1]
+            out.append(dict(mode='cli', lang=strs(st['lang'])[0], o=default_opts(), flags=[],
+                            typeargs=[('--mime=' if how == 3 else '--type=') + arg],
+                            exp=dict(ty=int(st['ty']), how=how, arg=arg), **{'in': RICH[strs(st['lang'])[0]][int(st['inp']) - 1]}))
+            continue
         if not fl:
             continue
         lang = strs(st['lang'])[0]
@@ -494,7 +513,7 @@ def cli_cases(ctx):
         out.append(dict(mode='cli', lang=lang, o=o, flags=flags, exp=dict(fl=[dict(flag=f, val=int(v)) for f, v in fl]),
                         **{'in': RICH[lang][int(st['inp']) - 1]}))
     # the table of spec/CliFlags.tla covers every minifier flag of the usage text in cmd/minify/README.md
-    table = set(c['exp']['fl'][0]['flag'] for c in out if len(c['flags']) == 1)
+    table = set(c['exp']['fl'][0]['flag'] for c in out if len(c['flags']) == 1 and 'fl' in c['exp'])
     readme = open(os.path.join(vlib.REPO, 'cmd', 'minify', 'README.md')).read()
     documented = set(re.findall(r'^\s+--((?:css|html|js|json|svg|xml)-[a-z0-9-]+)', readme, flags=re.M))
     if not documented or documented - table:
@@ -565,7 +584,7 @@ def describe(c, e, whys):
     o = {k: v for k, v in c['o'].items() if v != d[k]}
     if c['mode'] == 'cli':
         return 'minify %s on %r: binary %r, library %r, default %r; rejected by %s' % (
-            ' '.join(c['flags']), c['in'][:120], e['cli'][:120], e['out'][:120], e['dflt'][:120], ' / '.join(whys))
+            ' '.join(c.get('typeargs', []) + c['flags']), c['in'][:120], e['cli'][:120], e['out'][:120], e['dflt'][:120], ' / '.join(whys))
     return '%s %s: %r -> %r rejected by %s' % (c['lang'], json.dumps(o, sort_keys=True), c['in'][:300], e['out'][:300],
                                                ' / '.join(whys))
 
@@ -594,7 +613,7 @@ class Tally:
                 self.sampled.add(kind)
                 o = {k: v for k, v in c['o'].items() if v != d[k]}
                 if c['mode'] == 'cli':
-                    self.samples.append(dict(flags=c['flags'], lang=c['lang'], **{'in': c['in'][:100]},
+                    self.samples.append(dict(flags=c.get('typeargs', []) + c['flags'], lang=c['lang'], **{'in': c['in'][:100]},
                                              binary_out=e['cli'][:100], default_out=e['dflt'][:100]))
                 else:
                     self.samples.append(dict(lang=c['lang'], o=o, source=kind[2], **{'in': c['in'][:160]}, out=e['out'][:160]))
@@ -627,6 +646,8 @@ def run(ctx):
     for p in vlib.known_cases('C16'):
         cases.append(dict(mode=p.get('mode', 'lib'), lang=p['lang'], o=dict(default_opts(), **p['o']), flags=p.get('flags', []),
                           exp=p.get('exp', {}), pinned=True, **{'in': p['in']}))
+        if p.get('typeargs'):
+            cases[-1]['typeargs'] = p['typeargs']
     cases += clic
     n_cli = len(clic)
     for s in select(ctx, exh, sim):
@@ -699,8 +720,8 @@ def run(ctx):
              'model spec/OptDesign.tla (state dump and -simulate walks) under its 2^7 option sets; non-trivial = at '
              'least one option differs from its default and the output differs from the input; distinct by sha1 of '
              '(language, options, flags, exact input); (c) the repository\'s own JS test inputs under 8 Version x KeepVarNames '
-             'settings, judged on those two clauses. Generator exclusion (pinned as known finding, see known/C16.txt): CSS exponent-form numbers that begin with '
-             'the digit 0 while KeepCSS2 is on; the constructs of the five fixed findings are generated again.',
+             'settings, judged on those two clauses. Generator exclusions (pinned as known findings, see known/C16.txt): CSS exponent-form numbers that begin with '
+             'the digit 0 while KeepCSS2 is on, the `xhtml` row of the documented --type table; the constructs of the five fixed findings are generated again.',
         samples=tally.samples,
     ))
     ctx.assumptions += [
@@ -719,6 +740,8 @@ def replay(ctx, obj):
     case = dict(mode=c.get('mode', 'lib'), lang=c['lang'], o=dict(default_opts(), **c['o']), flags=c.get('flags', []),
                 exp=dict(fl=[dict(flag=f.lstrip('-').split('=')[0], val=int(f.split('=')[1]) if '=' in f else 1)
                              for f in c.get('flags', [])]), **{'in': c['in']})
+    if c.get('typeargs'):
+        case.update(typeargs=c['typeargs'], exp=c['exp'])
     evs, accepted, rejects = validate(ctx, exe, cli, [case], 'replay')
     e = evs[0]
     print(json.dumps(dict(lang=e['lang'], o=c['o'], out=e['out'], cli=e.get('cli'), **{'in': e['in']})))
@@ -752,6 +775,11 @@ def selftest(ctx):
              **{'in': 'function outer(first) { var local = first + 1.23456; return local }\nvar alpha = beta == null ? gamma : beta;'}),
         dict(mode='cli', lang='css', o=dict(default_opts(), Precision=2), flags=['--css-precision=2'],
              exp=dict(fl=[dict(flag='css-precision', val=2)]), **{'in': RICH['css'][0]}),
+        dict(mode='cli', lang='xml', o=default_opts(), flags=[], typeargs=['--mime=application/rss+xml'],
+             exp=dict(ty=7, how=3, arg='application/rss+xml'), **{'in': RICH['xml'][0]}),
+        dict(mode='lib', lang='html', o=dict(default_opts(), KeepWhitespace=True, KeepEndTags=True), **{'in': '<div> a </div><p>b <b>c</b> </p>'}),
+        dict(mode='lib', lang='svg', o=dict(default_opts(), Precision=3),
+             **{'in': '<svg xmlns="http://www.w3.org/2000/svg"><symbol viewBox="0.12345 1.23456 100.5678 200"><rect width="5"/></symbol></svg>'}),
     ]
     for c in base:
         c.setdefault('flags', [])
@@ -782,7 +810,7 @@ def selftest(ctx):
             raise vlib.Infra('selftest: unexpected token after marker')
         return toks[:i] + [dict(toks[i], **kw)] + toks[i + 1:]
 
-    h, hs, x, jk, jp, cs, sv, js, cl = evs
+    h, hs, x, jk, jp, cs, sv, js, cl, ct, hb, sl = evs
     muts = [
         ('KeepEndTags', dict(h, to=drop(h['to'], lambda t: t['k'] == 'E' and t['n'] == 'li'))),
         ('KeepDocumentTags', dict(h, to=drop(h['to'], lambda t: t['k'] == 'S' and t['n'] == 'head'))),
@@ -808,10 +836,16 @@ def selftest(ctx):
         ('binary output differs from library output under the documented options', dict(cl, cli=cl['cli'] + ' ')),
         ('flag has no effect on a discriminating input', dict(cl, dflt=cl['cli'])),
         ('library run does not use the documented options', dict(cl, o=dict(cl['o'], Precision=3))),
+        ("binary output differs from the documented minifier's output", dict(ct, cli=ct['cli'] + ' ')),
+        ('documented type is not minified', dict(ct, cli=ct['in'], out=ct['in'])),
+        ('type case does not follow the documented table', dict(ct, lang='json')),
+        # the blank between the block tag <div> and the text a (not claimed by the inline-only part)
+        ('KeepWhitespace', dict(hb, to=change(hb['to'], lambda t: t['k'] == 'T' and t['b'] == [32, 97, 32], b=[97, 32]))),
+        ('Precision', dict(sl, to=change(sl['to'], lambda t: t['k'] == 'AN' and t['n'] == 'viewBox#2', b=[49, 46, 51]))),
     ]
     ok = True
     acc, rej = vlib.tlc_trace(ctx, 'C16Trace', 'C16Trace.cfg', [e for e in evs if e['mode'] == 'lib'], shards=1)
-    acc2, rej2 = vlib.tlc_trace(ctx, 'CliFlagsTrace', 'CliFlagsTrace.cfg', [cl], shards=1)
+    acc2, rej2 = vlib.tlc_trace(ctx, 'CliFlagsTrace', 'CliFlagsTrace.cfg', [cl, ct], shards=1)
     print('uncorrupted lines rejected:', rej + rej2)
     ok = ok and not rej and not rej2
     lib = [(w, e) for w, e in muts if e['mode'] == 'lib']
